@@ -132,6 +132,41 @@ let run_case (id : string) (kind : string) (body : string) =
       end else Printf.printf "%s %d %s nonwf\n" id k name)
     (split_ops body)
 
+(* ---- tan entry index (white-box) ---- *)
+let show_index (es : ientry list) : string =
+  if es = [] then "[]" else
+    "[" ^ String.concat " " (List.map (fun e ->
+      Printf.sprintf "%s-%s@%s:%s+%s" (string_of_n e.ie_start) (string_of_n e.ie_end)
+        (string_of_n e.ie_file) (string_of_n e.ie_pos) (string_of_n e.ie_len)) es) ^ "]"
+
+(* a < b on the extracted N, through the decimal rendering *)
+let n_lt a b =
+  let sa = string_of_n a and sb = string_of_n b in
+  compare (String.length sa, sa) (String.length sb, sb) < 0
+
+let run_tanidx (id : string) (body : string) =
+  let idx = ref [] in
+  let two62 = n_of_string "4611686018427387904" in
+  List.iteri (fun k text ->
+    try
+      match split_ws text with
+      | ["U"; s; e; f; p; l] ->
+        let s = num s and e = num e in
+        (* same admission rule as the harness: start <= end, at most 4096 positions, end < 2^62 *)
+        if n_lt e s || not (n_lt e (util_add s (n_of_int 4096))) || not (n_lt e two62)
+        then Printf.printf "%s %d ? bad\n" id k
+        else begin
+          idx := index_update !idx { ie_start = s; ie_end = e; ie_file = num f; ie_pos = num p; ie_len = num l };
+          Printf.printf "%s %d U %s\n" id k (show_index !idx)
+        end
+      | ["IQ"; lo; hi] ->
+        (match index_query !idx (num lo) (num hi) with
+         | IQPanic -> Printf.printf "%s %d IQ panic\n" id k
+         | IQRes (res, ok) -> Printf.printf "%s %d IQ %s %b\n" id k (show_index res) ok)
+      | _ -> Printf.printf "%s %d ? bad\n" id k
+    with Bad -> Printf.printf "%s %d ? bad\n" id k)
+    (split_ops body)
+
 let () =
   iter_lines (fun line ->
     if String.trim line <> "" then begin
@@ -141,6 +176,7 @@ let () =
         | [h] -> (h, "")
         | _ -> (line, "") in
       match split_ws head with
+      | [id; "tanidx"; _] -> run_tanidx id body
       | [id; kind; _mlfs] -> run_case id kind body
       | id :: _ -> Printf.printf "%s badcase\n" id
       | [] -> ()
